@@ -330,9 +330,13 @@ class LanguageAccept(Accept):
         result = super().best_match(fallback_matches)
 
         # Return a value from the original match list. Find the first
-        # original value that starts with the matched primary tag.
+        # original value whose primary tag is the matched primary tag.
         if result is not None:
-            return next(item for item in matches if item.startswith(result))
+            return next(
+                item
+                for item, primary in zip(matches, fallback_matches)
+                if primary == result
+            )
 
         return default
 
